@@ -412,6 +412,10 @@ package server
 // marks them - also a second loss inside the restart window, when routes the session in between re-announced are
 // fresh again
 //@   at-call s.resetAdvertisedRoutes(peer) requires graceful ==> called(StaleAll)
+// "... until the per-family long-lived timer expires": in that second-loss case, a family whose long-lived timer has
+// already run out has no retention time left (and no timer that would end it): its routes are not marked and kept,
+// they go - the families are told apart before anything is marked
+//@   at-call ^s.propagateUpdate(peer, peer.markLLGRStale(running)) requires called(llgrTimerRunningFamilies) && called(dropAdjRIBIn)
 // "... or with long-lived GR they are instead kept carrying LLGR_STALE (NO_LLGR routes dropped)": whenever the restart
 // timer of a restarting peer expires, one of the two happens - the retained routes are dropped, or they go through
 // the long-lived treatment (also when the long-lived timers are already running from an earlier loss: the routes of
